@@ -238,17 +238,21 @@ func (t *fnTrans) call(ins ssa.Instruction, c *ssa.CallCommon, res ssa.Value) {
 			}
 		}
 	}
+	// allocation may have happened. The allocation mark is advanced BEFORE the callee's frame is havocked: the range
+	// axiom of a havocked heap ("references stored here do not exceed the allocation mark") must speak about the mark
+	// after the call - with the old mark, a callee that stores a freshly allocated reference into a heap it modifies
+	// made the rest of the caller's path contradictory, hence vacuously verified (found with -covers: the success
+	// return of Server.getSession after Session.Init was dead).
+	if !ct.Pure {
+		oldTop := t.top(oldSt)
+		nt := t.heapHavoc(t.st, "$top", "Int")
+		t.assume(le(oldTop, nt))
+	}
 	t.applyModifies(ct, env, oldSt)
 	for _, g := range ct.GhostOut {
 		t.eng.heapSort["G."+g] = "(Array Int Int)"
 		t.heapGet(t.st, "G."+g, "(Array Int Int)")
 		t.heapHavoc(t.st, "G."+g, "(Array Int Int)")
-	}
-	// allocation may have happened
-	if !ct.Pure {
-		oldTop := t.top(oldSt)
-		nt := t.heapHavoc(t.st, "$top", "Int")
-		t.assume(le(oldTop, nt))
 	}
 	env.cur = t.st
 	if rv.T != nil {
@@ -437,7 +441,7 @@ func (t *fnTrans) keepPrivateLocals(oldSt *State) {
 }
 
 func (t *fnTrans) regroupLoc(l location) {
-	if l.kind == locAllField || l.kind == locAllElems || l.kind == locHeap {
+	if l.kind == locAllField || l.kind == locAllElems || l.kind == locHeap || l.kind == locFresh {
 		t.regroup(t.st, l.heaps)
 	}
 }
@@ -452,6 +456,7 @@ const (
 	locAllField
 	locAllElems
 	locHeap
+	locFresh // freshobjs(T) / freshelems(T): only objects / arrays allocated during the call (nothing that existed before)
 )
 
 type location struct {
@@ -598,6 +603,30 @@ func (t *fnTrans) resolveLoc(loc string, env *specEnv, pre *State) (l location, 
 			}
 			l.kind = locAllField
 			t.collectStructHeaps(T, &l)
+			return l, true
+		case "freshobjs":
+			// freshobjs(T): the fields of objects of struct type T allocated by the callee (it may initialise what it
+			// allocates); says nothing about objects that existed before the call
+			T := env.typeExpr(n.Args[0])
+			if T == nil {
+				t.errorf("modifies freshobjs: unknown type")
+				return
+			}
+			l.kind = locFresh
+			t.collectStructHeaps(T, &l)
+			return l, true
+		case "freshelems":
+			// freshelems(T): the elements of arrays of element type T allocated by the callee
+			T := env.typeExpr(n.Args[0])
+			if T == nil {
+				t.errorf("modifies freshelems: unknown type")
+				return
+			}
+			l.kind = locFresh
+			for _, c := range flatten(T) {
+				l.heaps = append(l.heaps, elemHeap(T, c.Suffix))
+				l.sorts = append(l.sorts, arr2Sort(c.Sort))
+			}
 			return l, true
 		case "allmaps":
 			// allmaps(map[K]V): every map of that type
@@ -832,6 +861,12 @@ func (t *fnTrans) havocLoc(loc string, env *specEnv, pre *State) {
 			t.heapSet(t.st, hn, hs, sto(old, l.ref, na))
 		case locAllField, locAllElems, locHeap:
 			t.heapHavoc(t.st, hn, hs)
+		case locFresh:
+			// new version, equal to the old one at every reference that existed before the call
+			if old == t.heapGet(pre, hn, hs) || true {
+				n := t.heapHavoc(t.st, hn, hs)
+				t.assume(fmt.Sprintf("(forall ((a!f Int)) (! (=> (<= a!f %s) (= (select %s a!f) (select %s a!f))) :pattern ((select %s a!f))))", t.top(pre), n, old, n))
+			}
 		}
 	}
 	t.regroupLoc(l)
@@ -1228,6 +1263,8 @@ func (t *fnTrans) frameCheck(x *ssa.Return, env *specEnv) {
 				switch l.kind {
 				case locAllField, locAllElems, locHeap:
 					whole = true
+				case locFresh:
+					// declares nothing about objects that existed at entry (which is what the frame check is about)
 				case locField, locCell, locMap:
 					excl = append(excl, eq(r, l.ref))
 				case locElems:
